@@ -258,7 +258,7 @@ class Runner:
             if name.startswith('asyncio.'):
                 return A.AOpaque(name)
             return NotImplemented
-        it = A.Interp(hook=hook, skip=is_logger, methods=self.methods, module=self.menv, max_steps=60000)
+        it = A.Interp(hook=hook, skip=is_logger, methods=self.methods, module=self.menv, max_steps=20000)
         try:
             it.call_function(self.fn, [client])
         finally:
@@ -324,6 +324,8 @@ def explore(chk, program, tier, rules, q):
             chk.violation(rule, inst, file=IO, line=fn.lineno, func=q, expected=expected, found=found, detail=detail)
     unknown = None
     for kind, st in streams(tier):
+        if len(reported) >= 6:
+            break          # enough witnesses; a broken scanner fails almost every stream
         n = len(st.items)
         base = None
         inst0 = f"{q}::{kind}::[{st.describe()}]"
@@ -363,7 +365,7 @@ def explore(chk, program, tier, rules, q):
                     base = (d, cutd)
                 elif kind == 'clean' and st.true_marker_only and d != base[0]:
                     report('SER-STATE', inst0, False, 'the same deliveries for every way of cutting the stream into reads', f"reads {base[1]}: {base[0]}; reads {cutd}: {d}")
-            if unknown:
+            if unknown or len(reported) >= 6:
                 break
         if unknown:
             break
